@@ -111,6 +111,69 @@ def topology(E, origin):
     return "cyclic" if len(und) >= len(seen) else "tree"
 
 
+def hook_state(ops):
+    """Which list traits have the items handler attached, replayed from the operations as sync_trait does it
+    (attached only when the FIRST partner is registered and only if both sides are lists; detached only when the LAST
+    partner is removed and that pair is list-list).  Used for finding keys and to steer the generator, never an oracle."""
+    dic, att = {}, {}
+
+    def sync1(X, Y):
+        d = dic.setdefault(X, [])
+        if Y in d:
+            return True
+        both = X[1] in LISTS and Y[1] in LISTS
+        if not d and both:
+            att[X] = True
+        d.append(Y)
+        same_kind = Y[1] == ANY or ((X[1] in LISTS) == (Y[1] in LISTS))
+        return same_kind          # False: the initial setattr raises TraitError, a mutual link stops here
+
+    def unsync1(X, Y):
+        d = dic.get(X, [])
+        if Y in d:
+            d.remove(Y)
+            if not d and X[1] in LISTS and Y[1] in LISTS:
+                att[X] = False
+
+    for op in ops:
+        k = op[0]
+        if k in ("Sync", "Unsync"):
+            X, Y = (op[1], op[2]), (op[3], op[4])
+            if k == "Sync":
+                if sync1(X, Y) and op[5]:
+                    sync1(Y, X)
+            else:
+                unsync1(X, Y)
+                if op[5]:
+                    unsync1(Y, X)
+        elif k == "Collect":
+            for X in list(dic):
+                if X[0] == op[1]:
+                    del dic[X]
+                else:
+                    dic[X] = [Y for Y in dic[X] if Y[0] != op[1]]
+    return dic, att
+
+
+def items_hook_missing(case, step):
+    """The operated list trait, or a list trait its mutation reaches, has a list partner but no items handler:
+    its first partner was a non-list trait (finding: is_list is decided once, at the first registration)."""
+    op = case["ops"][step]
+    if op[0] != "Mut":
+        return False
+    dic, att = hook_state(case["ops"][:step])
+    seen, todo = {(op[1], op[2])}, [(op[1], op[2])]
+    while todo:
+        X = todo.pop()
+        for Y in dic.get(X, []):
+            if X[1] in LISTS and Y[1] in LISTS and not att.get(X):
+                return True
+            if Y not in seen:
+                seen.add(Y)
+                todo.append(Y)
+    return False
+
+
 def topo_at(case, step):
     E = []
     for op in case["ops"][:step + 1]:
@@ -123,7 +186,8 @@ def topo_at(case, step):
 
 def key_fn(case, obs, step, clause):
     op = case["ops"][step]
-    return "%s/%s/%s" % (CLAUSE.get(clause, clause), op[0], topo_at(case, step))
+    return "%s/%s/%s%s" % (CLAUSE.get(clause, clause), op[0], topo_at(case, step),
+                           "+items-hook-missing" if items_hook_missing(case, step) else "")
 
 
 def describe(case, obs, step, clause):
@@ -239,7 +303,11 @@ def gen_case(rnd, ctx, maxlen, allow_cyclic):
             o = rnd.choice(alive)
             p = rnd.choice([q for q in alive if q != o])
             n = rnd.choice(SCALARS + LISTS)
-            if rnd.random() < 0.5:
+            att = hook_state(ops)[1]
+            if rnd.random() < 0.5 and not att.get((o, n)):
+                # (an Any partner of a list trait whose items handler is attached holds the SAME list object and
+                #  makes one mutation recurse to the recursion limit on the unchanged tree - reported separately, not
+                #  generated: the result depends on the interpreter's recursion limit)
                 m = ANY
                 ctx.count("link:one-way:to-Any")
             else:
